@@ -323,7 +323,14 @@ def check_identity(ctx, src, knobs=(), cfg=None):
         ctx.mon('identity-compared-under-options')
     try:
         from vlib import routes
-        got = routes.make(PageTemplate, src, 6, ctx, **cfg)()
+        if len(src) % 7 == 3:
+            # the template object held a document of the other kind before; write() replaces it
+            ctx.mon('identity-compared-after-write-over-an-earlier-document')
+            t = PageTemplate('<p>earlier\r\nhtml</p>' if src.startswith('<?xml') else '<?xml version="1.0"?>\r\n<p>earlier xml</p>', **cfg)
+            t.write(src)
+            got = t()
+        else:
+            got = routes.make(PageTemplate, src, 6, ctx, **cfg)()
     except TemplateError as e:
         ctx.cover('rejected', type(e).__name__)
         ctx.case(key=None, nontrivial=False)
